@@ -29,5 +29,7 @@ CONF = {
                    'C11_t_age (+untouched). reassembly (repaired model): C11_r_pages, C11_r_flushall (used = 0; remaining connections closed both ways with a stream that declined removal), '
                    'C11_r_once (panic-free histories). Refuted on the unchanged tree (witnesses replayed on the real code): C11_pages_orig_refuted, C11_hpages_orig_refuted, '
                    'C11_age_idle_orig_refuted, C11_limit_t_orig_refuted; C11_limit_r_refuted still holds of the repaired reassembly (known finding). '
-                   'Not proved: C11_limit and C11_age for reassembly (covered by correspondence + oracle only).',
+                   'Round 2: C11_r_age / C11_r_age_untouched (age flush of the repaired reassembly), C11_r_limit_step / C11_r_limit / C11_r_limit_single_page '
+                   '(the bound that holds of reassembly as it stands: limit - 1 + sum over the calls of (pages of the segment - 1); the property bound itself stays refuted, C11_limit_r_refuted), '
+                   'C11_r_once_total (log accepted for every variant and every history, also when the model panics; open-stream characterisation while no call panicked).',
 }
